@@ -405,3 +405,23 @@ Proof.
   rewrite (Hov h) in Hwr. unfold m_of.
   replace (wp g) with (k + (wp g - k)) by lia. apply mod_add_neq; lia.
 Qed.
+
+(* The statement "a pending slot write and a pending slot read never address the same slot"
+   (true of the index queue and the spsc queue, c03_spsc_no_slot_conflict) is FALSE of the
+   overflowing queue: the consumer's speculative read of a position that is being evicted and
+   the producer's re-use of that slot are enabled in the same state, in a sequentially
+   consistent execution -- by definition a data race on the plain slot cell.  The value read
+   is discarded (the consumer's compare-exchange fails). *)
+Definition spec_progs (t : nat) : list oop :=
+  match t with
+  | O => [OAcqP; OPush 7; OPush 8; OPush 9]
+  | S O => [OAcqC; OPop]
+  | _ => []
+  end.
+Definition spec_sched : list nat := [0;0;0;0;0; 1;1;1; 0;0;0;0;0;0; 0;0]%nat.
+Example oq_no_slot_conflict_refuted :
+  let c := fst (run step spec_sched (init 1 spec_progs)) in
+  reachable step (init 1 spec_progs) c /\
+  at_pc (snd c 0%nat) = PushWrite 9 2 1 /\ at_pc (snd c 1%nat) = PopRead 0 /\
+  2 mod m_of (fst c) = 0 mod m_of (fst c).
+Proof. cbv zeta. split; [exists spec_sched; reflexivity|]. vm_compute. auto. Qed.
